@@ -4,6 +4,7 @@ import collections
 from vlib.common import *
 from vlib import regen
 from checks import c04sql
+from checks import c04filter as cf
 
 META = {
     "text": "PARTIAL.  Stage 1 (proved + tied): Lean theorems about Store.replay, the independent fold of a bucket's log entries the property "
@@ -28,6 +29,18 @@ META = {
             "stored_timestamps_are_utc (#25; projection_timestamp_offset_dropped keeps what the SQL would do with an offset: latent), and "
             "get_account_balance_before_witness (#22, latent); the same comparison runs executably on every generated history of the run - with the offset "
             "OBSERVED in the timestamp text the real ParseTime + json.Marshal produce - and on an exhaustive enumeration to depth 3 (quick) / 4 (thorough).  "
+            "FILTERS (quantifier 'every point-in-time and filter'): "
+            "filter_where_means_filter — for every listing, PIT flag, ledger and EVERY filter expression that renders, the tokens of the where text "
+            "(Model.SqlText.exprPieces, the model of libs/query set/not/keyValue.Build + the ContextFn leaf renderers) are read by boolParse "
+            "(parentheses, NOT > AND > OR) as a tree whose value under every assignment of the atomic conditions is the intended meaning sem of "
+            "the expression ($not negation, $and conjunction, $or disjunction, account-on-transactions = source OR destination, wildcard address = "
+            "length AND segments), by induction over exprPieces/setTail, all depths and list lengths; filter_text_wraps, filter_attached_as_conjunct "
+            "(bun's `(c1) AND … AND (filter)` reads as the conjunction), leaf_text_means_leaf, not_needs_its_parentheses (the unparenthesised "
+            "variant reads differently); tied to the REAL SQL by a filter-structure lattice ($not over every kind of leaf, $not over $and/$or of >= 2, "
+            "nestings 3 deep, every sub-expression captured under the same parameters) with an independent Python oracle (checks/c04filter.py: "
+            "precedence-aware skeleton of the captured WHERE clause; attachment to the unfiltered statement's conjuncts; skeleton($not F) == NOT skeleton(F), "
+            "$and/$or likewise, as truth tables) and the Lean driver area filtersem (model fragment == real fragment; Lean reading == Python reading of the "
+            "real fragment and of the real WHERE clause; reading == meaning).  "
             "The full projection_refines_replay (induction over arbitrary log "
             "sequences through the generated definitions) and reads_equal_replay (what the Go query builders compute) are NOT proved.",
     "note": "Stage 2 rests on Model/Store/Sql.lean, my reading of PostgreSQL (three-valued logic, select-into assigning NULLs when no row is "
@@ -36,7 +49,10 @@ META = {
             "ledger predicate is a syntactic obligation on captured text, what the queries COMPUTE is not compared with replay here.  Trusted: Lean "
             "kernel (axioms propext/Classical.choice/Quot.sound at most); Store.replay as the reading of 'the replay of the log'; the Go harness and "
             "its generator; bun's rendering as captured; the little SQL block parser of checks/c04sql.py (fails loudly on shapes it does not know) "
-            "and its rule that a row joined by its foreign key <t>_seq to the primary key seq of a ledger-restricted row is itself restricted.",
+            "and its rule that a row joined by its foreign key <t>_seq to the primary key seq of a ledger-restricted row is itself restricted; "
+            "FILTERS: the boolean reading of NOT / AND / OR precedence (Lean boolParse and, independently, checks/c04filter.py) is my model of "
+            "PostgreSQL's grammar; atomic conditions are opaque (what `sources @> '[\"bank\"]'` selects is not modelled); the theorem speaks about the "
+            "scanner's tokens piece by piece, that they are the tokens of the text scanned as a whole is checked by the driver on every captured case, not proved.",
     "technique": "Lean 4 proofs by induction over the log sequence / the interleaving + differential correspondence with the in-memory store + "
                  "structural obligation on captured SQL text (+ stage 2: PL/pgSQL-to-Lean translation regenerated on every run)",
     "design_ref": "5 (C04), 3.7, 6 #16 #22 #24 #25, 8, appendix D",
@@ -280,6 +296,222 @@ def check_read_sql(ctx, inputs, impl, ledger_funcs):
                                   "%s calls %s without passing the store's ledger as first argument" % (m, c["func"]),
                                   {"area": "readsql", "input": inp, "observed": {"sql": q}})
     return st, hows, methods
+
+
+# ---------------------------------------------------------------- captured read SQL: the WHERE clause built for a filter MEANS the filter
+
+FILTER_EP = {"GetAccountsWithVolumes": "accounts", "CountAccounts": "accounts", "GetTransactions": "transactions",
+             "CountTransactions": "transactions", "GetAggregatedBalances": "balances", "GetLogs": "logs"}
+
+
+def canon_filter(f):
+    return json.dumps(json.loads(f), separators=(",", ":"), ensure_ascii=False)
+
+
+def check_filter_structure(ctx, inputs, impl, have_driver):
+    """checks/c04filter.py on every captured filter case: attachment to the statement's own conjuncts, composition of
+    $not / $and / $or (truth tables over the atoms of the captured SQL), and the Lean model's reading (driver area
+    `filtersem`) against the Python oracle's on the same text."""
+    st = collections.Counter()
+    rates = collections.Counter()
+    groups = {}
+    for inp in inputs:
+        m = inp["method"]
+        if m not in FILTER_EP:
+            continue
+        out = impl.get(inp["id"])
+        if out is None or "panic" in out or out.get("err"):
+            continue
+        stmts = [q for q in out["sql"] if not q.startswith("PREPARE ")]
+        if len(stmts) != 1:
+            continue
+        key = (m, inp["ledger"], canon(inp.get("pit")), bool(inp.get("vol")), bool(inp.get("eff")))
+        f = inp.get("filter") or ""
+        groups.setdefault(key, {})[canon_filter(f) if f else ""] = (inp, stmts[0])
+
+    def strip_id(i):
+        return {k: v for k, v in i.items() if k not in ("corpus",)}
+
+    skel = {}        # (key, canonical filter) -> (filter conjunct tree, its text, where text)
+    rows = []        # for the Lean driver
+    for key, cases in sorted(groups.items(), key=lambda kv: canon(kv[0])):
+        base = cases.get("")
+        base_cs = None
+        if base is not None:
+            try:
+                base_cs = cf.ledger_where(base[1], key[1])[2]
+            except cf.SkeletonError as e:
+                ctx.l2_broken.append({"stream": "readsql-skeleton", "id": base[0]["id"], "input": base[0], "impl": base[1], "detail": str(e)})
+        for cfil, (inp, sql) in cases.items():
+            if cfil == "":
+                continue
+            st["filter-cases"] += 1
+            for c in cf.shape_of(cfil):
+                rates[c] += 1
+            try:
+                toks, wtext, cs = cf.ledger_where(sql, key[1])
+                texts = cf.conjunct_texts(toks, wtext)
+            except cf.SkeletonError as e:
+                ctx.l2_broken.append({"stream": "readsql-skeleton", "id": inp["id"], "input": inp, "impl": sql, "detail": str(e)})
+                continue
+            ok = len(cs) >= 2 and any(cf.is_ledger_predicate(c, key[1]) for c in cs[:-1]) and texts is not None and len(texts) == len(cs)
+            if ok and base_cs is not None:
+                ok = cs[:-1] == base_cs
+            st["attachment-checked"] += 1
+            if not ok:
+                ctx.violation({"property": "C04", "class": "filter-attachment", "method": key[0]},
+                              "%s: the WHERE clause for filter %s is not `<conjuncts of the unfiltered statement> AND (<one filter conjunct>)`: %s" % (
+                                  key[0], cfil, cf.show(("and", cs) if len(cs) > 1 else cs[0])),
+                              {"area": "readsql", "inputs": [strip_id(inp)] + ([strip_id(base[0])] if base else []),
+                               "observed": {"filter": cfil, "sql": sql, "where": wtext,
+                                            "unfiltered_conjuncts": [cf.show(c) for c in base_cs or []]}})
+                continue
+            skel[(key, cfil)] = (cs[-1], texts[-1], wtext)
+            rows.append({"id": inp["id"], "ep": FILTER_EP[key[0]], "pit": inp.get("pit") is not None, "ledger": key[1],
+                         "filter": cfil, "frag": texts[-1], "where": wtext})
+
+    # ---- composition
+    conn_stats = collections.Counter()
+    for (key, cfil), (tree, text, wtext) in sorted(skel.items(), key=lambda kv: canon([kv[0][0], kv[0][1]])):
+        conn, subs = cf.sub_filters(cfil)
+        if conn is None:
+            st["leaf-cases"] += 1
+            continue
+        cases = groups[key]
+        subs = [canon_filter(x) for x in subs]
+        missing = [x for x in subs if (key, x) not in skel]
+        if missing:
+            st["composite-without-captured-parts"] += 1
+            if not ctx.replay_file and cases[cfil][0].get("lattice") == "structure":
+                ctx.l2_broken.append({"stream": "readsql-structure-closure", "id": cases[cfil][0]["id"], "input": cases[cfil][0],
+                                      "detail": "sub-filters not captured / not analysable: %s" % missing[:2]})
+            continue
+        parts = [skel[(key, x)][0] for x in subs]
+        want = ("not", parts[0]) if conn == "not" else ("tt" if not parts else (conn, parts))
+        conn_stats[conn] += 1
+        st["compositions-checked"] += 1
+        try:
+            a = cf.first_difference(tree, want)
+        except cf.SkeletonError as e:
+            ctx.l2_broken.append({"stream": "readsql-skeleton", "id": cases[cfil][0]["id"], "input": cases[cfil][0], "detail": str(e)})
+            continue
+        if a is not None:
+            inp, sql = cases[cfil]
+            sub_cases = [cases[x] for x in dict.fromkeys(subs)]
+            ctx.violation({"property": "C04", "class": "filter-structure", "connective": conn, "method": key[0]},
+                          "%s, filter %s: the SQL sent reads %s, but its part%s read%s %s — with %s the filter asked for selects the row = %s, the SQL selects it = %s" % (
+                              key[0], cfil, cf.show(tree), "" if len(parts) == 1 else "s", "s" if len(parts) == 1 else "",
+                              "; ".join(cf.show(p) for p in parts), ", ".join("[%s]=%s" % (cf.pretty_atom(k), str(v).lower()) for k, v in a.items()),
+                              str(cf.ev(want, a)).lower(), str(cf.ev(tree, a)).lower()),
+                          {"area": "readsql",
+                           "inputs": [strip_id(inp)] + [strip_id(c[0]) for c in sub_cases] + ([strip_id(cases[""][0])] if "" in cases else []),
+                           "observed": {"filter": cfil, "connective": conn, "sql": sql, "filter_part_of_sql": text,
+                                        "skeleton_of_sql": cf.show(tree),
+                                        "sub_filters": [{"filter": x, "sql": c[1], "filter_part_of_sql": skel[(key, x)][1],
+                                                         "skeleton": cf.show(skel[(key, x)][0])} for x, c in zip(dict.fromkeys(subs), sub_cases)],
+                                        "expected_skeleton": cf.show(want), "assignment_that_differs": {cf.pretty_atom(k): v for k, v in a.items()},
+                                        "filter_selects": cf.ev(want, a), "sql_selects": cf.ev(tree, a)}})
+
+    # ---- the Lean model's reading of the same text (driver area `filtersem`)
+    tie = collections.Counter()
+    if have_driver and rows:
+        inf, outf = ctx.path("filtersem.in.jsonl"), ctx.path("filtersem.model.jsonl")
+        write_jsonl(inf, rows)
+        p = run_driver("filtersem", inf, outf)
+        if p.returncode != 0:
+            ctx.l2_broken.append({"stream": "filtersem-driver", "detail": (p.stdout + p.stderr)[-2000:]})
+        else:
+            model = {r["id"]: r["out"] for r in read_jsonl(outf)}
+            bad = collections.Counter()
+
+            def broken(stream, row, **kw):
+                bad[stream] += 1
+                if bad[stream] <= 3:
+                    ctx.l2_broken.append(dict({"stream": "filtersem:" + stream, "id": row["id"], "input": row}, **kw))
+            for row in rows:
+                mo = model.get(row["id"])
+                tie["cases"] += 1
+                if mo is None or "driver_error" in mo:
+                    broken("driver", row, model=mo)
+                    continue
+                py_frag = cf.flat(cf.skeleton_sql(row["frag"]))
+                py_where = cf.flat(cf.skeleton_sql(row["where"]))
+                # 1. Lean reading == Python reading, on the REAL text (fragment and whole WHERE clause)
+                if canon(mo.get("sql_tree")) != canon(py_frag):
+                    broken("reading-of-real-fragment(lean-vs-python)", row, impl=py_frag, model=mo.get("sql_tree"))
+                if canon(mo.get("where_tree")) != canon(py_where):
+                    broken("reading-of-real-where(lean-vs-python)", row, impl=py_where, model=mo.get("where_tree"))
+                if "rejected" in mo:
+                    broken("model-rejects-what-the-store-rendered", row, model=mo)
+                    continue
+                # 2. the model renders the text the real store sent
+                if mo["frag"] != row["frag"]:
+                    broken("fragment(model-vs-real-sql)", row, impl=row["frag"], model=mo["frag"])
+                # 3. within the model: pieces scanned one by one == the text scanned as a whole; reading == meaning
+                if not mo["pieces_scan_as_text"]:
+                    broken("pieces-scan-as-text", row, model=mo)
+                if not mo["reading_is_meaning"] or mo["model_tree"] is None:
+                    broken("reading-is-meaning(model)", row, model=mo)
+                # 4. the intended meaning (Lean skel) == the Python reading of the real text, as truth tables
+                try:
+                    d = cf.first_difference(cf.tree_of_json(mo["sem_tree"]), cf.tree_of_json(py_frag))
+                except cf.SkeletonError as e:
+                    d = {"error": str(e)}
+                if d is not None:
+                    broken("meaning(lean)-vs-reading-of-real-sql(python)", row, impl=py_frag, model=mo["sem_tree"], detail=d)
+            for k in ("driver", "reading-of-real-fragment(lean-vs-python)", "reading-of-real-where(lean-vs-python)",
+                      "model-rejects-what-the-store-rendered", "fragment(model-vs-real-sql)", "pieces-scan-as-text",
+                      "reading-is-meaning(model)", "meaning(lean)-vs-reading-of-real-sql(python)"):
+                ctx.cov.setdefault("disagreements", {})["filtersem:" + k] = bad[k]
+                ctx.cov.setdefault("compared", {})["filtersem:" + k] = tie["cases"]
+    n = max(1, st["filter-cases"])
+    xcheck = reader_crosscheck(ctx, sorted({r["where"] for r in rows}), 3000 if ctx.quick else 100000) if have_driver and not ctx.replay_file else {}
+    return {
+        "reader_crosscheck (Lean boolParse vs Python skeleton)": xcheck,
+        "filter_cases": st["filter-cases"], "attachment_checked": st["attachment-checked"], "leaf_cases": st["leaf-cases"],
+        "compositions_checked": st["compositions-checked"], "compositions_by_connective": dict(sorted(conn_stats.items())),
+        "composites_without_captured_parts": st["composite-without-captured-parts"],
+        "lean_tie_cases": tie["cases"],
+        "shape_rates (share of filter cases; a case can be in several classes)": {k: round(v / n, 3) for k, v in sorted(rates.items())},
+        "shape_counts": dict(sorted(rates.items())),
+    }
+
+
+READER_SOUP = ["a", "b", "a", "b = 2", "x @> 'y'", "c.d", "'x or y'", "'not'", "(", ")", "(", ")", "not", "NOT", "and", "AND", "or", "Or", "=", "<", "1", "1 = 1", "@>",
+               "between", "case", "is", "null", "select", "(select 1 where p and q)", "f(x and y)", "::jsonpath", "-- and\n", "/* or */"]
+
+
+def reader_crosscheck(ctx, real_texts, n):
+    """the two readings of SQL precedence — lean/Model/Store/FilterSem.lean boolParse (cut at the connectives of depth 0) and
+    checks/c04filter.py skeleton (recursive descent) — on the captured WHERE clauses and on random connective / parenthesis soup"""
+    import random
+    rnd = random.Random(ctx.seed * 104729 + 4)
+    rows = [{"id": k, "sql": t} for k, t in enumerate(real_texts)]
+    for _ in range(n):
+        rows.append({"id": len(rows), "sql": " ".join(rnd.choice(READER_SOUP) for _ in range(rnd.randint(1, 9)))})
+    inf, outf = ctx.path("boolparse.in.jsonl"), ctx.path("boolparse.model.jsonl")
+    write_jsonl(inf, rows)
+    p = run_driver("boolparse", inf, outf)
+    if p.returncode != 0:
+        ctx.l2_broken.append({"stream": "boolparse-driver", "detail": (p.stdout + p.stderr)[-2000:]})
+        return {}
+    model = {r["id"]: r["out"] for r in read_jsonl(outf)}
+    bad, read, refused = 0, 0, 0
+    for r in rows:
+        try:
+            py = cf.flat(cf.skeleton_sql(r["sql"]))
+            read += 1
+        except cf.SkeletonError:
+            py = None
+            refused += 1
+        m = model.get(r["id"], {})
+        if "tree" not in m or canon(m["tree"]) != canon(py):
+            bad += 1
+            if bad <= 3:
+                ctx.l2_broken.append({"stream": "boolparse:lean-vs-python", "id": r["id"], "input": r, "impl": py, "model": m})
+    ctx.cov.setdefault("compared", {})["boolparse:lean-vs-python"] = len(rows)
+    ctx.cov.setdefault("disagreements", {})["boolparse:lean-vs-python"] = bad
+    return {"captured_where_clauses": len(real_texts), "random_soup": n, "read_by_python": read, "refused_by_python": refused, "disagreements": bad}
 
 
 def check_schema_functions(ctx, ledger_funcs, fns):
@@ -541,6 +773,9 @@ def run(ctx):
         "checks/c04sql.py: block parser for the captured SELECT/WITH statements; rule: ledger = L, or foreign-key/primary-key join (accounts_seq / transactions_seq / seq) to a restricted row",
         "checks/c20.py tokenize(): PostgreSQL tokenizer shared with C20",
         "bun 1.1.16 rendering as captured; SQL is never executed (no PostgreSQL in the sandbox)",
+        "FILTERS: lean/Model/Store/FilterSem.lean boolParse and checks/c04filter.py skeleton(): two independent readings of SQL operator precedence "
+        "(parentheses, NOT > AND > OR, everything else an opaque atom; `is not null` / `not in` / BETWEEN / CASE at depth 0 are refused) - my model of "
+        "PostgreSQL's gram.y for the three connectives; Model.SqlText.lex (shared with C20) as the scanner; leafSkel as the intended meaning of a matcher",
     ]
     ctx.cov["trusted_base"] += [
         "STAGE 2: lean/Model/Store/Sql.lean (meaning of the SQL subset: tables as row lists in seq order, NULL and three-valued logic, select-into "
@@ -603,13 +838,18 @@ def run(ctx):
         inputs, impl, _ = r
         st, hows, methods = check_read_sql(ctx, inputs, impl, ledger_funcs)
         rs_eval = st["statements"]
+        fstruct = check_filter_structure(ctx, inputs, impl, have_driver)
         ctx.cov["readsql"] = {
             "cases": len(inputs), "statements_analysed": st["statements"], "table_references": st["table-references"],
             "ledger_function_calls": st["ledger-function-calls"], "copy_rows_checked": st["copy-rows"],
             "statements_by_method": dict(sorted(methods.items())), "restriction_kinds": dict(sorted(hows.items())),
+            "filter_structure": fstruct,
             "lattice": "method x PIT(absent, zero instant, a date) x expandVolumes x expandEffectiveVolumes x filters "
                        "(accounts: address exact/segments, metadata[k], balance[asset], balance, and/or/not; transactions: reference, timestamp, "
-                       "account, source, destination (exact/segments), metadata[k], or/and/not; aggregated balances: address, metadata[k]; logs: date)",
+                       "account, source, destination (exact/segments), metadata[k], or/and/not; aggregated balances: address, metadata[k]; logs: date) "
+                       "+ filter-structure lattice (harness rsStructureFilters): per listing every kind of matcher F, $not F, $not $not F, $and[F], $or[F], "
+                       "$not $and[F,G], $not $or[F,G], $and[F,G,H], $not $or[F,G,H], four nestings 3 deep, empty sets, and EVERY sub-expression of these, "
+                       "x list and count methods x PIT(absent, a date) x expand(none, both); the seed picks which matchers are paired (thorough: all offsets)",
         }
         want = {"GetAccountsWithVolumes", "CountAccounts", "GetAccountWithVolumes", "GetAccount", "GetAggregatedBalances", "GetBalance",
                 "GetTransactions", "CountTransactions", "GetTransactionWithVolumes", "GetTransaction", "GetTransactionByReference",
@@ -635,6 +875,8 @@ def run(ctx):
         "1a/1b replay + laws": "proved (Lean, unbounded): see coverage.theorems",
         "1c in-memory store = replay": "differential (Lean model) + independent Python fold (L3)",
         "1d ledger predicate": "structural obligation on captured SQL text of every ledgerstore read method, on InsertLogs' COPY rows and on the schema's `language sql` read functions",
+        "1e filters": "proved (Lean, every expression): the where text built for a filter reads, under SQL precedence, as the filter's meaning; tied to the captured SQL of the "
+                      "real store by the filter-structure lattice: attachment + composition oracle (Python) + Lean reading of the same text (driver area filtersem)",
         "2e translation": "regenerated on every run (extract/plpgsql -> Generated/Schema.lean); a construct outside the grammar stops the check",
         "2f projection vs replay": "kernel-checked on all histories of <= 2 entries + one rich example (partial theorems); executable comparison on the "
                                    "generated histories of the run and on the enumeration to depth 3/4; no counterexample to any clause (i)-(v) since the repairs of insert_move / "
